@@ -58,6 +58,13 @@ PROPS = {
         gen_obligations=["Gen.responseWriteLocked","Gen.MessageBufferLength"],
         trusted=["Model.Retry hand-written from message.go writeRetry/writeStreamRetry; Model.Writers: LTS of response.Write (server.go)"],
     ),
+    "C09": dict(
+        domains=[("mux", "subsets", 6144, 24576), ("mux", "random", 6000, 100000), ("mux", "seq", 4000, 60000)],
+        relevant=["C09:"],
+        theorems=["DV.Props.C09."+t for t in ["C09_decision","C09_only_registered","C09_lastwins","C09_gen"]],
+        gen_obligations=["Gen.allCmdIndex","Gen.capErrorReports","Gen.muxServeRLockDeferred"],
+        trusted=["Model.Mux hand-written from server.go ServeMux; command resolution through the C17 dictionary model"],
+    ),
     "C16": dict(
         domains=[("codec", "answer", 6000, 100000)],
         relevant=["C16:"],
